@@ -258,7 +258,7 @@ PROPS['C23'] = {
     'parts': [K('kani:checkpoint', 'sdk', [H('c23_checkpoint_contract')], timeout=900, functions=[('sdk/src/context.rs', 'check_progress')],
                 stubs=['std::panic::catch_unwind -> call the closure (Kani cannot compile the unwinding intrinsic)']),
               V('verus:datahash_verify', 'datahash_verify'),
-              B('native:cancel_every_callback', 'sdk', [{'name': 'c23_cancel_at_every_callback', 'tier': 'quick'}], functions=[('sdk/src/claim.rs', 'verify_hash_binding')],
+              B('native:cancel_every_callback', 'sdk', [{'name': 'c23_cancel_at_every_callback', 'tier': 'quick'}, {'name': 'c23_cancel_at_every_callback_all_formats', 'tier': 'quick'}], functions=[('sdk/src/claim.rs', 'verify_hash_binding')],
                 bounds='every callback index of a full run: read CA.jpg, C.jpg, video1.mp4; sign IMG_0003.jpg, libpng-test.png, video1_no_manifest.mp4')],
     'trusted_base': TB_KANI + TB_VERUS[2:],
     'rule': 'proof obligation = CBMC check of a complete harness, or one Verus function query',
